@@ -41,7 +41,7 @@ ASSUMPTIONS = [
     "pre-emption points are public-API steps; threads sharing one parser are not simulated (no such promise)",
     "'result' = text, XML bytes and the canonical LTPage tree incl. names, matrices, colours, points (LTPage.pageid, a per-call counter, is excluded when pages are extracted individually)",
 ]
-PROBES = ["interleaved iterators of different documents", "iterator abandoned half-consumed", "call repeated later in history", "gc.collect step", "caching off", "eviction happened", "address policy rev", "address policy rand", "hash-seed re-execution", "cmap cache digest compared", "page replaces font under same resource name", "pages share font object", "page uses undefined font name", "direct font dictionary", "unpainted path at page end", "encrypted", "cjk-euc-h", "unknown-base-diffs-A", "no-encoding", "type0-shared-descendant-A", "type0-shared-descendant-B", "shared-diffs-A", "shared-diffs-B", "helvetica-custom-encoding", "repository sample"]
+PROBES = ["one document walked twice with the same objects", "interleaved iterators of different documents", "iterator abandoned half-consumed", "call repeated later in history", "gc.collect step", "caching off", "eviction happened", "address policy rev", "address policy rand", "hash-seed re-execution", "cmap cache digest compared", "page replaces font under same resource name", "pages share font object", "page uses undefined font name", "direct font dictionary", "unpainted path at page end", "encrypted", "cjk-euc-h", "unknown-base-diffs-A", "no-encoding", "type0-shared-descendant-A", "type0-shared-descendant-B", "shared-diffs-A", "shared-diffs-B", "helvetica-custom-encoding", "repository sample"]
 TIERS = {
     "quick": {"batches": 16, "runs": 14, "budget_s": 50},
     "thorough": {"batches": 128, "runs": 120, "budget_s": 1200},
@@ -255,12 +255,42 @@ def handle(msg):
     raise ValueError(kind)
 
 
+def walk_twice(data, la, caching):
+    """The low-level API with one document, one resource manager, one device and one interpreter: the pages walked
+    twice, and every page interpreted twice in the second walk.  Answers the pages of the last pass if all passes
+    agree, else a description of the disagreement."""
+    from pdfminer.converter import PDFPageAggregator
+    from pdfminer.pdfdocument import PDFDocument
+    from pdfminer.pdfinterp import PDFPageInterpreter, PDFResourceManager
+    from pdfminer.pdfpage import PDFPage
+    from pdfminer.pdfparser import PDFParser
+
+    doc = PDFDocument(PDFParser(io.BytesIO(data)), caching=caching)
+    rm = PDFResourceManager(caching=caching)
+    dev = PDFPageAggregator(rm, laparams=laparams_of(la))
+    interp = PDFPageInterpreter(rm, dev)
+    passes = []
+    for rnd in range(2):
+        out = []
+        for page in PDFPage.create_pages(doc):
+            for _ in range(1 + rnd):
+                interp.process_page(page)
+                got = page_canon(dev.get_result())
+            out.append(got)
+        passes.append(out)
+    if passes[0] != passes[1]:
+        return "second walk over the same document differs from the first: %s" % (first_diff(passes[1], passes[0]),)
+    return passes[1]
+
+
 def observe_call(data, la, caching, what, arg):
     try:
         if what == "pages":
             return [page_canon(p) for p in call_pages(data, la, caching)]
         if what == "single":
             return [page_canon(p) for p in call_pages(data, la, caching, page_numbers={arg})]
+        if what == "doc-twice":
+            return walk_twice(data, la, caching)
         if what == "text":
             return call_text(data, la, caching)
         if what == "text-single":
@@ -357,6 +387,8 @@ def run(tape, ctx, item=None):
             want = [r["pages"][arg]] if isinstance(r["pages"], list) and arg < len(r["pages"]) else ([] if isinstance(r["pages"], list) else r["pages"])
         elif what == "text-single":
             want = r["text-single"][arg] if arg < len(r["text-single"]) else ""
+        elif what == "doc-twice":
+            want = r["pages"]
         else:
             want = r[what]
         if got == want:
@@ -394,7 +426,9 @@ def run(tape, ctx, item=None):
             if addr[0] != "mono":
                 ctx.probe("address policy " + addr[0])
             ev = seams.draw_evict(t)
-            what = t.pick(["pages", "pages", "single", "text", "text-single", "fp-text", "fp-xml"], "task.what")
+            what = t.pick(["pages", "pages", "single", "text", "text-single", "fp-text", "fp-xml", "doc-twice"], "task.what")
+            if what == "doc-twice":
+                ctx.probe("one document walked twice with the same objects")
             r = ref_for(di, la)
             npages = len(r["pages"]) if isinstance(r["pages"], list) else 0
             arg = t.draw(max(1, npages), "task.page") if what in ("single", "text-single") else None
